@@ -5,7 +5,10 @@ For every specimen and depth-<=2 composite of the universe:
   * for the specimens themselves the GENERIC AbstractLinearOperator.as_matrix(op) equals it too;
   * linearity grid: op(a e_i + b e_j) == a P[:,i] + b P[:,j] for the zero vector, all basis pairs (specimens) or all
     neighbouring pairs incl. i = j (composites) and (a,b) in {(1,1),(2,-1),(1/2,3),(0,1),(-1,-1),(0,0)} - complete for
-    affine offsets, sign-dependent terms and quadratic cross terms.
+    affine offsets, sign-dependent terms and quadratic cross terms;
+  * transformations other than jit (every specimen; a fixed quarter of the composites in the quick tier, all in the thorough tier):
+    jax.vmap(op.mv) over the batch (a, b, a), jax.jvp(op.mv) at a along b (primal M a, tangent M b), and two applications inside
+    lax.scan with the operator's arrays carried as loop state - each must agree with the probed matrix whenever JAX accepts it.
 """
 from __future__ import annotations
 
@@ -25,7 +28,10 @@ def plan(tier, seed):
     return ph
 
 
-def oracle(desc, op, exact):
+def oracle(desc, op, exact, all_transforms=True):
+    import json
+    import zlib
+
     import numpy as np
 
     from furax._base.core import AbstractLinearOperator
@@ -111,13 +117,56 @@ def oracle(desc, op, exact):
             probs.append(('depends-on-more-than-the-input-values', f'{kind} leaves, equal leaves being one array object: first application {y1[:6]}, second {y2[:6]}, matrix times input {want[:6]}'))
         if any(not np.array_equal(a, b, equal_nan=True) for a, b in zip(after, saved)):
             probs.append(('input-modified', f'{kind} leaves: the input arrays differ after the operator was applied'))
+    # --- application under JAX transformations other than jit: a batch of inputs under vmap, the tangent map under jvp (a linear
+    # map is its own derivative), two applications in a row inside lax.scan with the operator carried as an argument.  Whether a
+    # transformation is supported is not promised: only a result that differs from the probed matrix counts.
+    if n and M.shape[0] and (single or all_transforms or zlib.crc32(json.dumps(desc, sort_keys=True).encode()) % 4 == 0):
+        rtol = max(ltol, 1e-3 if inexact_solver else 0)
+        va = np.zeros(n); va[0] = 1; va[-1] += 2
+        vb = (np.arange(n) % 5) - 2.0
+        xa, xb = P.unflat(va, in_struct), P.unflat(vb, in_struct)
+        wa, wb = M @ P.flat(xa), M @ P.flat(xb)
+        try:
+            X = jax.tree.map(lambda p_, q_: jnp.stack([p_, q_, p_]), xa, xb)
+            Y = P.lib('vmap(mv)', jax.vmap(op.mv), X)
+            rows = [P.flat(jax.tree.map(lambda l, k=k: l[k], Y)) for k in range(3)]
+            if not (P.close(rows[0], wa, rtol) and P.close(rows[1], wb, rtol) and P.close(rows[2], wa, rtol)):
+                probs.append(('vmap-differs', f'vmap(op.mv) over the batch (a, b, a): rows {rows[0][:6]} / {rows[1][:6]} / {rows[2][:6]}, matrix times inputs {wa[:6]} / {wb[:6]}'))
+        except P.LibError:
+            pass
+        if not any(np.issubdtype(np.dtype(l.dtype), np.integer) or np.dtype(l.dtype) == np.bool_ for l in leaves):
+            try:
+                yp, yt = P.lib('jvp(mv)', jax.jvp, op.mv, (xa,), (xb,))
+                if not (P.close(P.flat(yp), wa, rtol) and P.close(P.flat(yt), wb, rtol)):
+                    probs.append(('jvp-differs', f'jvp of op.mv at a along b: primal {P.flat(yp)[:6]} tangent {P.flat(yt)[:6]}, matrix times a {wa[:6]}, matrix times b {wb[:6]}'))
+            except P.LibError:
+                pass
+        if P.ssig(in_struct) != P.ssig(op.out_structure()):
+            return probs, bool(np.any(M != 0))
+        try:
+            import equinox as eqx
+
+            dyn, static = eqx.partition(op, eqx.is_array)
+
+            def body(carry, _):
+                o = eqx.combine(carry[0], static)
+                return (carry[0], o.mv(carry[1])), None
+
+            (_, y2), _ = P.lib('scan(mv)', jax.lax.scan, body, (dyn, xb), None, length=2)
+            w2 = M @ (M @ P.flat(xb))
+            if np.all(np.isfinite(w2)) and not P.close(P.flat(y2), w2, max(rtol, 1e-5)):
+                probs.append(('scan-differs', f'two applications inside lax.scan (operator arrays carried): {P.flat(y2)[:6]}, matrix squared times input {w2[:6]}'))
+        except P.LibError:
+            pass
     return probs, bool(np.any(M != 0))
 
 
 def run(phase, cases, ctx):
     from mc import unirun
 
-    return unirun.run(cases, oracle)
+    import functools
+
+    return unirun.run(cases, functools.partial(oracle, all_transforms=ctx.get('tier') == 'thorough'))
 
 
 def finalize(results, tier, seed):
